@@ -250,8 +250,14 @@ func runCheck(id, tier, filter string) int {
 				cfg.Backend = b
 			}
 			cfg.Workers = 16
+			// wall-clock budget per entry: an entry that explodes on a changed tree must not keep the
+			// other entries' verdicts (and the exit code) from being reported
+			cfg.TimeBudget = 20 * time.Minute
+			// (an assertion query that comes back unknown within the per-query limit is asked again in a fresh
+			// solver with six times the limit before the check is declared inconclusive: sym/driver.go)
 			if tier == "thorough" {
 				cfg.TimeoutMs = 180000
+				cfg.TimeBudget = 3 * time.Hour
 			}
 			if e.MaxDecisions > 0 {
 				cfg.MaxDecisions = e.MaxDecisions
@@ -308,6 +314,9 @@ func runCheck(id, tier, filter string) int {
 			}
 			if res.SolverErrors > 0 {
 				broken = append(broken, fmt.Sprintf("%s: solver printed %d error lines (%s)", e.Name, res.SolverErrors, res.LastSolverErr))
+			}
+			if res.TimeLimitHit {
+				broken = append(broken, fmt.Sprintf("%s: time budget of %s exceeded (exploration stopped; nothing is claimed for this entry)", e.Name, cfg.TimeBudget))
 			}
 			if res.PathLimitHit {
 				broken = append(broken, e.Name+": path limit hit")
@@ -505,7 +514,9 @@ func runCheck(id, tier, filter string) int {
 	os.MkdirAll(filepath.Join(verifRoot, "evidence"), 0o755)
 	data, _ := json.MarshalIndent(ev, "", " ")
 	evPath := filepath.Join(verifRoot, "evidence", id+".json")
-	if filter == "" && totalPaths > 0 && totalDec > 0 {
+	if filter == "" && totalPaths > 0 && totalDec > 0 && os.Getenv("VERIF_KEEP_EVIDENCE") == "" {
+		// (VERIF_KEEP_EVIDENCE: set by tools/seed_check.sh and tools/mutate_check.sh, whose runs are made on a
+		// deliberately changed tree and must not replace the evidence of the unchanged tree)
 		// (a run that explored nothing - e.g. a harness build error - describes no coverage: the evidence
 		// of the last run that did is left in place; its verdict is on stdout and in the exit code)
 		os.WriteFile(evPath, data, 0o644)
